@@ -146,7 +146,7 @@ def value_of(kind, text):
 # typed INFO keys of the generated header: key -> (Number, Type)
 # (key names where one is a prefix of another: DB/DBS, A/AF)
 INFO_KEYS = {"DP": ("1", "Integer"), "AF": ("A", "Float"), "DB": ("0", "Flag"), "ST": ("1", "String"), "NL": (".", "Integer"),
-             "DBS": ("1", "String"), "A": ("0", "Flag")}
+             "DBS": ("1", "String"), "A": ("0", "Flag"), "MQ": ("1", "Float")}
 
 
 def parse_info(text):
@@ -163,6 +163,8 @@ def parse_info(text):
             out[key] = int(val)
         elif num == "1" and typ == "String":
             out[key] = val
+        elif num == "1" and typ == "Float":
+            out[key] = float(val)
         elif typ == "Float":
             out[key] = [float(v) for v in val.split(",")]
         else:
@@ -214,12 +216,17 @@ def gen_float(tape, label, noncanon, dotless=False):
         # a column in which no value has a decimal point (narrowPeak -1 columns, integer-valued bedGraph)
         kind = tape.weighted([(3, 0), (3, 4), (2 if noncanon else 0, 5)], label + ".fk")
     else:
-        kind = tape.weighted([(3, 0), (3, 1), (2, 2), (2 if noncanon else 0, 3), (1, 4)], label + ".fk")
+        kind = tape.weighted([(3, 0), (3, 1), (2, 2), (2 if noncanon else 0, 3), (1, 4), (1 if noncanon else 0, 6)], label + ".fk")
     ip = _digits(tape, 4, label + ".ip")
     if kind == 0:
         t = ip
     elif kind == 4:
         t = "-" + ip
+    elif kind == 6:
+        # no digit in front of / behind the decimal point: .5  -.25  3.
+        shape = tape.draw(3, label + ".dotshape")
+        fp = _digits(tape, 3, label + ".fp")
+        t = "." + fp if shape == 0 else ("-." + fp if shape == 1 else ip + ".")
     elif kind == 5:
         e = tape.draw(5, label + ".e")
         t = ("-" if tape.boolean(label + ".neg") else "") + "123456789"[tape.draw(9, label + ".m")] + f"e{e}"
@@ -327,6 +334,8 @@ def gen_field(tape, kind, label, noncanon, ctx):
                 items.append(k)
             elif typ == "String":
                 items.append(k + "=" + gen_id(tape, label + ".s"))
+            elif typ == "Float" and num == "1":
+                items.append(k + "=" + gen_float(tape, label + ".f1", True))     # also .5 / -.25 / 3. / 1e-3
             elif typ == "Float":
                 n = 1 + tape.draw(2, label + ".nf")
                 items.append(k + "=" + ",".join(gen_float(tape, label + ".f", False) for _ in range(n)))
@@ -341,7 +350,7 @@ def gen_field(tape, kind, label, noncanon, ctx):
         with_extra = ctx.get("gt_extra", False)
         ents = []
         for _ in range(ns):
-            g = tape.choice(["0|1", "1|1", "0/1", "./.", "0|0", "1/2"], label + ".g")
+            g = tape.choice(["0|1", "1|1", "0/1", "./.", "0|0", "1/2", ".", "10|2", "0", "1/10"], label + ".g")
             if with_extra and tape.boolean(label + ".x", 1, 2):
                 g += ":" + gen_int(tape, label + ".dp", False, maxw=3) + (":" + gen_int(tape, label + ".gq", False, maxw=2) if tape.boolean(label + ".y") else "")
             ents.append(g)
